@@ -49,6 +49,7 @@ class Contract:
     known: List[dict] = dataclasses.field(default_factory=list)  # known-finding splits: {"id","pred","ensures_idx"}
     gen: Optional[Callable] = None          # engine C: gen(rng, tier) -> iterator of kwargs dicts
     nontrivial: Optional[Callable] = None   # engine C: which generated inputs count as non-trivial
+    gen_large: Optional[Callable] = None    # engine C escalation: large inputs, used only when engine A could not decide
 
     @property
     def module(self):
